@@ -20,13 +20,13 @@ REG = {
     "C05": (
         "stateless schedule enumeration with iterative preemption bounding over real threads (engine C), "
         "linearizability oracle = the implementation run sequentially in every call order",
-        "8 (quick) / 12 (thorough) harnesses of 2-3 real threads x 1-2 ATP_Store calls on tiny shared stores are run "
-        "under a controlled scheduler where every source line of metabolism.py (thorough: every bytecode on 4 "
-        "harnesses) is a scheduling point and the store lock is a scheduler-aware lock; every schedule with <= 2 "
-        "(quick) / 3 (thorough) preemptions is executed to completion and its outcome (all return values, final "
-        "balances/debt/state) must be produced by some sequential order of the same calls; deadlock is a detected "
-        "state. The documented two-phase transfer is a recorded known finding that matches only outcomes reachable "
-        "by splitting the transfer into its two atomic halves.",
+        "9 curated harnesses (thorough 14, incl. real BioAgent.express calls sharing a store) plus a systematic family "
+        "of all 55 unordered pairs of operation kinds, each 2-3 real threads x 1-2 ATP_Store calls on tiny shared "
+        "stores, are run under a controlled scheduler where every source line of metabolism.py (thorough: every "
+        "bytecode on 4 harnesses) is a scheduling point and the store lock is a scheduler-aware lock; every schedule "
+        "with <= 2 (quick) / 3 (thorough) preemptions is executed to completion and its outcome (all return values, "
+        "final balances/debt/state) must be produced by some sequential order of the same calls run on the "
+        "implementation itself; deadlock (and a call that would hang even sequentially) is a detected state.",
         "CoopLock has threading.Lock semantics; atomicity of a single bytecode under the GIL is trusted; "
         "free-threaded builds are out of scope",
     ),
